@@ -463,7 +463,7 @@ pub fn main(args: &[String]) {
                     3 => (2.0, 6),
                     _ => (rdfc10::DEFAULT_DEPTH_FACTOR, rdfc10::DEFAULT_PERMUTATION_LIMIT),
                 };
-                let (res, idmap, seedv) = match if i % 16 == 15 { 3 } else { i % 3 } {
+                let (res, idmap, seedv) = match if i % 17 == 16 { 3 } else { i % 3 } {   // (17: every structure kind meets the wide digest)
                     3 => (toy_wide(&c, df, pl), json!([]), 100),
                     0 => (toy::<0>(&c, df, pl), toy_idmap::<0>(&c), 0),
                     1 => (toy::<1>(&c, df, pl), toy_idmap::<1>(&c), 1),
